@@ -27,10 +27,14 @@ def walltime_str(sec):
     return f"{sec // 3600}:{(sec % 3600) // 60:02d}:{sec % 60:02d}"
 
 
-def make_params(g, gi, max_nodes, extra=None):
+def make_params(g, gi, max_nodes, extra=None, local=False):
     from jade.models import HpcConfig, SubmitterParams
+    if local:
+        hpc = HpcConfig(hpc_type="local", job_prefix=f"p{gi}", hpc={})
+    else:
+        hpc = HpcConfig(hpc_type="slurm", job_prefix=f"p{gi}", hpc={"account": f"acct{gi}", "walltime": walltime_str(g["wallSec"])})
     kw = dict(
-        hpc_config=HpcConfig(hpc_type="slurm", job_prefix=f"p{gi}", hpc={"account": f"acct{gi}", "walltime": walltime_str(g["wallSec"])}),
+        hpc_config=hpc,
         per_node_batch_size=g["batchSize"], time_based_batching=g["timeBased"], try_add_blocked_jobs=g["tryAdd"],
         num_processes=g.get("procs"), dry_run=g.get("dryRun", False), max_nodes=max_nodes,
         generate_reports=False, resource_monitor_type="none", poll_interval=0,
@@ -58,7 +62,7 @@ def make_config(sc, commands=None, extra_params=None):
             submission_group=gname(j["group"]),
         ))
     for gi, g in enumerate(sc["groups"]):
-        config.append_submission_group(SubmissionGroup(name=gname(gi), submitter_params=make_params(g, gi, sc.get("maxNodes"), extra_params)))
+        config.append_submission_group(SubmissionGroup(name=gname(gi), submitter_params=make_params(g, gi, sc.get("maxNodes"), extra_params, local=sc.get("local", False))))
     return config
 
 
